@@ -19,6 +19,12 @@ def classify(text, root, err):
             return 'F4'
         if tag == 'speechgroup':
             return 'F21'
+        if parent == 'speechGroup' and tag == 'from':
+            return 'F38'
+        if parent in ('listIntroduction', 'listWrapUp') and re.search(r'^[ \t]*FOOTNOTE [^ \n]', text, re.M):
+            # the grammar admits only a line and footnotes there, so a block child can only be
+            # the unwrapped content of a footnote that no reference claimed
+            return 'F39'
         if tag == 'nationalinterest':
             return 'F25'
         if tag in ('scene', 'narrative', 'summary') and parent in ('speech', 'question', 'answer', 'speechgroup'):
